@@ -109,6 +109,14 @@ CHECKS["C07"] = dict(
          "Exhaustive over strings up to length L of a 12-class alphabet; the re-used Segmenter accumulates the whole shard as history, so HistoryFree compares against a fresh one at every call.",
     note="Trusts x/text bidi as the level fact, the library's exported lookups for script/orientation, TLC. Bracket pairing is not judged separately. Long strings sampled by seed.")
 
+CHECKS["C18"] = dict(
+    engine="utb",
+    technique="TLA+ cut-at-safe-boundaries protocol (SafeBreak.tla: the cut set is recomputed by the spec from the flagged whole, the recorded pieces must be exactly its segments, Concat and FlagsUniform) validated by TLC on whole/piece shapings of corpus fonts",
+    category="model_checking", design_ref="DESIGN.md §5 C18",
+    text="For every case the harness records the whole shaping with per-glyph cluster, unsafe flag and a position signature, and the shapings of the pieces; TLC recomputes the safe cut set, checks that the pieces are exactly the segments (so the harness cannot cut elsewhere), that flags are uniform per cluster and that the concatenated pieces reproduce the whole. "
+         "All 583 OpenType-layout faces of the corpus x texts from their own coverage and script samples x directions.",
+    note="Trusts GuessSegmentProperties for the native direction, signature strings as glyph identity, TLC. Non-native directions are out of scope (the engine reverses the buffer and the supplied context is no longer the logical neighbour). Texts sampled by seed; no implementation model of contextual lookups is part of this check.")
+
 NOT_YET = {}
 NA = {
  "C05": "defined as agreement with the reference C HarfBuzz; no reference shaper (uharfbuzz/hb-shape) exists in this sealed sandbox and re-specifying HarfBuzz in TLA+ would make the spec the reference (DESIGN §6)",
